@@ -133,6 +133,9 @@ func (r *Report) Finish() int {
 	for k, v := range r.Extra {
 		cov[k] = v
 	}
+	if len(mcReused) > 0 {
+		cov["model_explorations_reused_from_cache"] = mcReused // VERIF_MCCACHE was set: those state counts were measured by an earlier run
+	}
 	if len(r.Samples) == 0 {
 		cov["samples"] = []any{"(no case explored)"}
 	}
